@@ -144,3 +144,6 @@ mk('C05+C06+C07+C08+C09+C15-sendmessage-extra-param',
    sm, '\terr = k.sendMessage(\n\t\tctx,\n', '\terr = k.sendMessage(\n\t\tctx,\n\t\ttypes.MessageBodyVersion,\n',
    K + 'msg_server_send_message_with_caller.go', 'k.sendMessage(\n\t\tctx,\n', 'k.sendMessage(\n\t\tctx,\n\t\ttypes.MessageBodyVersion,\n',
    K + 'msg_server_replace_message.go', 'k.sendMessage(\n\t\tctx,\n', 'k.sendMessage(\n\t\tctx,\n\t\ttypes.MessageBodyVersion,\n')
+
+# ---- module.go wiring restructured
+mk('C17-validategenesis-restructured', 'x/cctp/module.go', '\treturn genesis.Validate()', '\tif err := genesis.Validate(); err != nil {\n\t\treturn err\n\t}\n\treturn nil')
